@@ -16,6 +16,7 @@ struct Preemption {
   uint64_t at;    // … when its at-th library basic-block event occurs (1-based)
   int to;         // the task that receives the baton (if finished: the next live one)
   uint64_t quantum = 0;  // if > 0: after that many of its own events, `to` hands the baton back
+  uint32_t id = 0;       // position in the schedule handed to runParked (filled in by it)
 };
 
 struct TaskReport {
@@ -29,6 +30,7 @@ struct Result {
   std::vector<TaskReport> tasks;
   uint64_t switches = 0;
   uint64_t preemptionsFired = 0;
+  std::vector<uint32_t> firedOrder;  // ids of the preemptions that fired, in the order they fired
 };
 
 // number of library guards known (0 when the binary is not instrumented)
